@@ -26,5 +26,14 @@ NestedClass(ST, m) ==
     [] m.fam = "scalar" -> (IF m.verb = "reset" \/ ST[m.cls].ty[m.attr].fam # "scalar" THEN "" ELSE ST[m.cls].ty[m.attr].item)
     [] m.fam = "elem"   -> (IF m.verb = "without" THEN "" ELSE ST[m.cls].ty[m.attr].item)
 NestedKw(ST, m, real) == IF NestedClass(ST, m) = "" THEN {} ELSE Names(InitAttrs(ST, NestedClass(ST, m))) \ real     \* real = the method's own parameter names
+\* where the value given for keyword k must be found once the real method has run: the nested attribute of that name, or (a name outside
+\* the nested class's attributes, legal only under an advertised **overflow) the nested overflow mapping; updating an EXISTING element with
+\* overflow names is left open (the library sets them as plain attributes of the element)
+Destination(ST, m, k) ==
+  LET nc == NestedClass(ST, m) IN
+  IF nc = "" THEN {"rejected"}
+  ELSE IF k \in Names(InitAttrs(ST, nc)) THEN {"attr"}
+  ELSE IF ST[nc].overflow # "" THEN (IF m.fam \in {"elem", "top"} /\ m.verb = "update" THEN {"attr", "in:" \o ST[nc].overflow} ELSE {"in:" \o ST[nc].overflow})
+  ELSE {"rejected"}
 WantsVarKw(ST, m) == NestedClass(ST, m) # "" /\ ST[NestedClass(ST, m)].overflow # ""
 =============================================================================
